@@ -26,6 +26,25 @@ Interpretation decisions
   * magnitude (audit class B): >= 128 / >= 256 cells, solution positions and coordinate values that differ only
     beyond an int8 / uint8 boundary, constructor coordinates 127/128/255/256 on grids 128 and 256, datasets and
     duplicate lists of 127..300 mazes.
+  * second audit (classes C-H), all judged by the same clauses from the CURRENT projections:
+      C  falsy values: generation_meta {} and all-falsy, non-maze operands False / 0.0 / () / [] / "" / {} / frozenset() / a
+         1-element array, configurations with seed 0 / name "" / grid_n 0 / seq_len_min 0 / kwargs whose only value is falsy /
+         a recorded filter with empty args on ONE side and on both sides, empty maze lists, cell [0, 0], index 0.
+      D  directed oblong grids (2x5, 5x2, 3x7, 7x3, 7x1, 1x6, 1x4, 1x1) for pairs, constructor (incl. the error path) and datasets.
+      E  aliasing: constructor forms alias_* and pair relations alias:* hand over the caller's OWN int64 / int8 arrays and
+         (nested) lists, compare them with a snapshot after the call (M:constructor_modified_argument) and then OVERWRITE them
+         before anything is read from the object: "can never hold an end outside its grid" and "hash(x) does not change while
+         x is not touched" are Layer P (holds_end_outside_grid, hash_changes_over_time); "still the requested value" is Layer M.
+         connection_list is NOT overwritten: the dataclass stores the caller's array itself on the unchanged tree and the
+         statement does not promise a copy.  Dataset maze sequences: the caller's list is emptied after the call.
+      F  factory-made objects (MazeDataset.generate with metadata present / collected / collected twice, from_pixels,
+         from_ascii, from_tokens, from_lattice_maze, from_targeted_lattice_maze, minimal load) against twins built directly
+         through the constructors; stale n_mazes; the same filter applied twice in a row.
+      G  float-valued, bool, numpy-scalar, strided, Fortran-ordered, list-of-arrays, tuple-of-tuples coordinates / solutions;
+         pickle round trip; maze sequences as tuple / one-shot generator.  (copy.copy / copy.deepcopy of a maze raise TypeError
+         on the unchanged tree -- muutils serialization of ndarray fields -- and are not part of C09's statement: not generated.)
+      H  length-1 / length-2 / start == end solutions x empty and full lattice x EVERY representation, metadata and round trip
+         (short_group enumerates them, it does not sample), the same for datasets (concatenated-solution format) and histories.
   * constructor: only start / end are constrained (not interior solution cells); any accepted object
     must hold exactly in-grid ends; out-of-grid => ValueError precisely.
 """
@@ -1494,7 +1513,9 @@ def main(chk: lib.Check) -> int:
         "on the 8 shapes; (ds) MazeDataset pairs over lists of length <= 3 from a pool of 4 mazes x 7 configuration variants; then seeded random cases of the same forms "
         "on grids up to 12x12 / 15x15 incl. library round trips and duplicate lists; then histories (every use of an object / edit or filter of a dataset followed by a "
         "re-observation against fresh, reloaded and different objects) and magnitude cases (16x16, 2x70, 1x300, 129x2 ..., solutions of 128..300 cells, constructor "
-        "coordinates around 127/128/255/256 on grids 128 and 256, datasets / duplicate lists of 127..300 mazes). non-trivial = pair of distinct objects / endpoint on or beyond the boundary / non-empty dataset"
+        "coordinates around 127/128/255/256 on grids 128 and 256, datasets / duplicate lists of 127..300 mazes); then the directed classes C-H: shortest solutions x every "
+        "representation on 1x1..7x3 grids, falsy operands / metadata / configuration fields, caller-owned arguments overwritten after the call, constructor on oblong grids x 19 "
+        "argument forms, tuple / generator / caller-owned maze sequences, factory-made objects against constructed twins. non-trivial = pair of distinct objects / endpoint on or beyond the boundary / non-empty dataset"
     )
     import maze_dataset
 
@@ -1630,7 +1651,8 @@ def main(chk: lib.Check) -> int:
     chk.assumptions = [
         "TLC, CommunityModules JSON reader/writer, CPython/numpy",
         "the raw projection (type name, connection_list, start_pos, end_pos, solution read from the object) is faithful",
-        "connection_list is always a bool array (other dtypes of connection_list are outside the statement)",
+        "connection_list is always a bool array (other dtypes of connection_list are outside the statement; arrays made by the library's own factories are compared as they come)",
+        "connection_list is stored by reference by the dataclass (unchanged tree): the caller's connection array is never overwritten after the call, only start / end / solution / maze lists are",
         "configuration equality when only n_mazes differs is taken from the configuration's own ==",
         "shapes beyond 3x2 are sampled (seeded), not exhaustive" + ("" if thorough else "; quick tier sweeps 1/16 of the 2x3 and 3x2 graphs"),
     ]
